@@ -2,6 +2,7 @@ package mon
 
 import (
 	"bufio"
+	"bytes"
 	"fmt"
 	"os"
 	"path/filepath"
@@ -47,6 +48,7 @@ func (c07) Plan(tier string) []core.Segment {
 		{Gen: "lines", Profile: "hostile", Count: scale(tier, 50_000, 2_000_000)},
 		{Gen: "specmut", Count: scale(tier, 100_000, 4_000_000)},
 		{Gen: "small", Profile: "c07:5", Count: gen.Size("small", "c07:5"), Exhaustive: true},
+		{Gen: "bigdoc", Count: scale(tier, 600, 20000), Desc: "8-40 KiB documents of many small blocks, also streamed with every block rewritten as soon as it is returned and rendered at the end", Batch: 50},
 	}
 }
 
@@ -253,33 +255,60 @@ func (c07) Check(ctx *core.Ctx, c *core.Case) {
 	if ctx.Verbose {
 		ctx.Log("%s", core.DumpBlocks(blocks, refs))
 	}
-	for _, cfg := range cfgs {
-		out, _ := core.Render(blocks, refs, cfg)
-		if ctx.Verbose {
-			ctx.Log("%s: %s", cfg, core.Quote(out))
-		}
-		code, msg := checkSafeHTML(out)
-		if code != "" {
-			ctx.Violation(code, "%s: %s\n output: %s", cfg, msg, core.Quote(out))
-			return
-		}
-		ctx.Inc("outputs_checked")
-		ctx.Count("output_bytes", int64(len(out)))
-		s := string(out)
-		if strings.Contains(s, "=\"") || strings.Contains(s, "&") {
-			ctx.NonTrivial()
-		}
-		// recorded, not judged: the renderer's strict output language
-		for _, t := range htmltok.Tokenize(s) {
-			if t.Kind == htmltok.Text && strings.IndexByte(t.Data, '>') >= 0 {
-				ctx.Record("strict_syntax:gt_in_text", "%s", core.Quote(c.Input))
+	// The property names no entry point. Large documents (and every 8th small one) are also read
+	// block by block, each block rewritten as soon as it is returned (the reference map of the
+	// in-memory parse is the matcher), all blocks kept and rendered at the end: what an
+	// earlier block shows must not depend on what the parser read later (seeded change C07-k: a
+	// read buffer recycled under blocks already handed out).
+	type variant struct {
+		blocks []*cm.RootBlock
+		who    string
+	}
+	variants := []variant{{blocks, "parse"}}
+	if len(c.Input) >= 8192 || c.Seed%8 == 0 {
+		p := cm.NewBlockParser(bytes.NewReader(append([]byte(nil), c.Input...)))
+		ip := &cm.InlineParser{ReferenceMatcher: refs}
+		var sb []*cm.RootBlock
+		for {
+			rb, err := p.NextBlock()
+			if err != nil || rb == nil {
+				break
 			}
-			if t.Kind == htmltok.StartTag {
-				ctx.Inc("start_tags_seen")
-				for _, a := range t.Attrs {
-					ctx.Inc("attr:" + t.Name + "." + a.Name)
-					if a.Quote != '"' {
-						ctx.Record("strict_syntax:attribute_not_double_quoted", "%s", core.Quote(c.Input))
+			ip.Rewrite(rb)
+			sb = append(sb, rb)
+		}
+		variants = append(variants, variant{sb, "stream+rewrite-as-you-go"})
+		ctx.Inc("docs_also_streamed_and_rewritten_block_by_block")
+	}
+	for _, cfg := range cfgs {
+		for _, v := range variants {
+			out, _ := core.Render(v.blocks, refs, cfg)
+			if ctx.Verbose {
+				ctx.Log("%s/%s: %s", cfg, v.who, core.Quote(out))
+			}
+			code, msg := checkSafeHTML(out)
+			if code != "" {
+				ctx.Violation(code, "%s/%s: %s\n output: %s", cfg, v.who, msg, core.Quote(out))
+				return
+			}
+			ctx.Inc("outputs_checked")
+			ctx.Count("output_bytes", int64(len(out)))
+			s := string(out)
+			if strings.Contains(s, "=\"") || strings.Contains(s, "&") {
+				ctx.NonTrivial()
+			}
+			// recorded, not judged: the renderer's strict output language
+			for _, t := range htmltok.Tokenize(s) {
+				if t.Kind == htmltok.Text && strings.IndexByte(t.Data, '>') >= 0 {
+					ctx.Record("strict_syntax:gt_in_text", "%s", core.Quote(c.Input))
+				}
+				if t.Kind == htmltok.StartTag {
+					ctx.Inc("start_tags_seen")
+					for _, a := range t.Attrs {
+						ctx.Inc("attr:" + t.Name + "." + a.Name)
+						if a.Quote != '"' {
+							ctx.Record("strict_syntax:attribute_not_double_quoted", "%s", core.Quote(c.Input))
+						}
 					}
 				}
 			}
